@@ -348,36 +348,47 @@ def run(ctx, rep):
                      f'{3 if quick else 6} random compositions, merge, permutation, normal-form re-parse')
 
 
-def squeeze_layout(text):
-    """Collapse runs of blanks where the property says they cannot matter: outside ``` fences and outside `...`
-    fragments (verbatim code is passed through untouched, so whitespace inside it, e.g. in a string literal, is content)."""
-    out, fenced = [], False
-    for ln in text.split('\n'):
-        if ln.startswith('```'):
-            fenced = not fenced
-            out.append(ln)
-        elif fenced:
-            out.append(ln)
+def squeeze(t):
+    """Runs of blanks/tabs -> one blank, but only where whitespace is layout: not inside backticks or quotes (a
+    verbatim fragment or a string literal keeps its text), not at the start of a line (indentation)."""
+    out, quote, i = [], None, 0
+    while i < len(t):
+        c = t[i]
+        if quote:
+            out.append(c)
+            if c == quote or c == '\n':
+                quote = None
+        elif c in '`\'"':
+            quote = c
+            out.append(c)
+        elif c in ' \t' and out and out[-1] != '\n':
+            while i + 1 < len(t) and t[i + 1] in ' \t':
+                i += 1
+            out.append(' ')
         else:
-            parts = ln.split('`')
-            out.append('`'.join(re.sub(r'[ \t]+', ' ', p) if i % 2 == 0 else p for i, p in enumerate(parts)))
-    return '\n'.join(out)
+            out.append(c)
+        i += 1
+    return ''.join(out)
 
 
 def search(ctx, rep, disagreements):
     for d in disagreements:
         t = d.get('case', {}).get('text')
-        if isinstance(t, str):
+        if isinstance(t, str) and '```' not in t:
             # a disagreeing text: is it a layout of something whose plain form parses differently?
-            squeezed = squeeze_layout(t)
-            oracle_variant('layout-not-neutral:whitespace-squeeze', squeezed, t, rep, 'neighbourhood')
+            oracle_variant('layout-not-neutral:whitespace-squeeze', squeeze(t), t, rep, 'neighbourhood')
     run(ctx, rep)
 
 
 def replay(ctx, rep, case):
     kind = case.get('check')
     print('  check:', kind, ' text:', repr(case.get('text')))
-    if kind == 'layout':
+    if kind == 'layout' and case.get('key') == 'layout-not-neutral:whitespace-squeeze' and (
+            '```' in case['text'] or squeeze(case['text']) != case['plain']):
+        # stored by an earlier version that also squeezed whitespace inside string literals / verbatim text:
+        # not a pair of layouts of the same script
+        print('  (stale corpus case: the stored pair is not a layout transformation; skipped)')
+    elif kind == 'layout':
         print('  plain:', repr(case['plain']))
         for t in (case['plain'], case['text']):
             syms, tag = parse(t)
